@@ -518,6 +518,12 @@ def check(db, rep):
     except OutOfFragment as e:
         r6.broken('ConvertTo outside the evaluable fragment: %s' % e)
         return
+    # the evaluation above starts every call from fresh locals: it is the whole behaviour only when the function keeps nothing between calls
+    kept = [s for s in db.statics if (s.get('owner') or '') == 'ccl::rslang::ConvertTo' and not s.get('const')]
+    if kept:
+        r6.violation('ConvertTo:stateless', '%s:%d' % (kept[0]['file'], kept[0]['line']), 'ConvertTo keeps `%s %s` between calls: the converted text then depends on earlier conversions (a text converted to one syntax, or remembered under another target, is handed back for a different request) and is no longer the print of the tree parsed from this input' % (kept[0]['type'][:50], kept[0]['name']))
+    else:
+        r6.ok('ConvertTo:stateless', 'no mutable object with static storage is owned by ConvertTo: the result is a function of (text, target)', '%s:%d' % (cv.file, cv.line))
     if bad:
         r6.violation('ConvertTo', '%s:%d' % (cv.file, cv.line), bad)
     else:
